@@ -10,7 +10,9 @@ PROP=${ID%%-*}
 [ $# -eq 0 ] && set -- "$PROP"
 REGEN=
 grep -q '"patch_touches_generated_fixtures": true' "$D/meta.json" && REGEN=1
-OUT=$(MUT_REGEN=$REGEN /verif/tools/try_mutant.sh "$D/patch.diff" "$@" 2>&1 | grep -v '^WARNING')
+VERB=
+grep -q '"apply_verbatim": true' "$D/meta.json" && VERB=1
+OUT=$(MUT_VERBATIM=$VERB MUT_REGEN=$REGEN /verif/tools/try_mutant.sh "$D/patch.diff" "$@" 2>&1 | grep -v '^WARNING')
 echo "$OUT" | sed "s/^/$ID: /" | cut -c1-330
 python3 - "$D" "${VERIF_TIER:-quick}" "$OUT" <<'PY'
 import json,sys,re,datetime
